@@ -118,6 +118,31 @@ type leafCtx struct {
 	named    []string            // named results, in order
 	extOf    map[string][]string // leaf name -> its extern parameter names
 	recvOf   map[string]bool     // leaf name -> returns the updated receiver first
+
+	// seventh generation (leaf7.go)
+	gen7       bool
+	mode       int               // outcome type of the function being translated
+	failCount  int               // failing operations emitted so far
+	stuckCount int               // operations emitted so far that need the Out outcome
+	ren        map[string]string // Go variable -> Lean name where they differ (shadowing)
+	declDepth  map[string]int    // Go variable -> block depth of its declaration
+	depth      int               // current block depth
+	nshadow    int
+	loops      []string // state tuples of the enclosing loops
+	inSwitch   int
+	threads    []string            // implicit state passed in and returned: "rnd", "cb_<param>"
+	outs       []string            // pointer receiver / parameters whose targets the body assigns
+	rets       []string            // result types
+	rtInner    string              // Lean type of the result inside the outcome wrapper
+	callbacks  map[string][]string // func-typed parameter -> its argument types
+	infoOf     map[string]*leafInfo
+	used       map[string]bool
+	sites      map[token.Pos]string // call site -> name of the external value read there
+	nsite      map[string]int
+	caps       map[string]bool   // slices modelled with a capacity
+	fileDeps   map[string]bool   // Gen modules of the leaves called
+	aliasOf    map[string]string // local name -> the slice parameter it is another name for
+	madeHere   map[string]bool   // byte buffers created by make in this function (capacity = length)
 }
 
 func (c *leafCtx) fail(format string, a ...any) {
@@ -142,8 +167,38 @@ func (c *leafCtx) leanType(e ast.Expr) string {
 	if at, ok := e.(*ast.ArrayType); ok && at.Len == nil {
 		if et := c.leanType(at.Elt); et == "Int64" {
 			return "L_Int64"
+		} else if et != "" && !strings.HasPrefix(et, "M:") && !strings.HasPrefix(et, "L_") {
+			return "L_" + et
 		}
 		return ""
+	}
+	if at, ok := e.(*ast.ArrayType); ok && at.Len != nil { // fixed-size array of integers: a list of that length
+		if bl, ok := at.Len.(*ast.BasicLit); ok && bl.Kind == token.INT {
+			if et := c.leanType(at.Elt); isIntType(et) {
+				return "A" + bl.Value + "_" + et
+			}
+		}
+		return ""
+	}
+	if mt, ok := e.(*ast.MapType); ok {
+		kt, vt := c.leanType(mt.Key), c.leanType(mt.Value)
+		if isIntType(kt) && vt != "" && !strings.Contains(vt, ":") {
+			return "M:" + kt + ":" + vt
+		}
+		return ""
+	}
+	if se, ok := e.(*ast.SelectorExpr); ok {
+		if id, ok := se.X.(*ast.Ident); ok && id.Name == "context" && se.Sel.Name == "Context" && c.gen7 {
+			return "Ctx"
+		}
+	}
+	if st, ok := e.(*ast.StarExpr); ok { // *[]T: the callee may reslice / replace the slice: modelled with its capacity
+		if at, isArr := st.X.(*ast.ArrayType); isArr && at.Len == nil {
+			if et := c.leanType(at.Elt); et != "" {
+				return "C_" + et
+			}
+			return ""
+		}
 	}
 	if se, ok := e.(*ast.SelectorExpr); ok {
 		if id, ok := se.X.(*ast.Ident); ok && id.Name == "time" && se.Sel.Name == "Time" {
@@ -200,6 +255,10 @@ func (c *leafCtx) isValue(e ast.Expr) bool {
 	case *ast.BinaryExpr:
 		return c.isValue(x.X) || c.isValue(x.Y)
 	case *ast.SelectorExpr:
+		return c.isValue(x.X)
+	case *ast.IndexExpr:
+		return c.isValue(x.X)
+	case *ast.StarExpr:
 		return c.isValue(x.X)
 	case *ast.CallExpr:
 		if f, ok := x.Fun.(*ast.SelectorExpr); ok {
@@ -344,6 +403,23 @@ func leanTypeName(t string) string {
 		return "F64.F64"
 	case "ActList":
 		return "(List Go.ClkAction)"
+	case "Ctx":
+		return "Bool"
+	case "Opaque": // element of a slice the function only takes the length of
+		return "Unit"
+	}
+	if strings.HasPrefix(t, "L_") {
+		return "(List " + leanTypeName(strings.TrimPrefix(t, "L_")) + ")"
+	}
+	if strings.HasPrefix(t, "C_") {
+		return "(Go.Slice " + leanTypeName(strings.TrimPrefix(t, "C_")) + ")"
+	}
+	if strings.HasPrefix(t, "M:") {
+		parts := strings.Split(t, ":")
+		return "(Go.Map " + leanTypeName(parts[1]) + " " + leanTypeName(parts[2]) + ")"
+	}
+	if n, et := arrayParts(t); n >= 0 && strings.HasPrefix(t, "A") {
+		return "(List " + leanTypeName(et) + ")"
 	}
 	return t
 }
@@ -403,6 +479,11 @@ func (c *leafCtx) timeMethod(recv, name string, args []ast.Expr) (string, string
 
 // expr translates e; want is the expected Lean type ("" = unknown); returns code and type.
 func (c *leafCtx) expr(e ast.Expr, want string) (string, string) {
+	if c.gen7 {
+		if s, t, ok := c.expr7(e, want); ok {
+			return s, t
+		}
+	}
 	switch x := e.(type) {
 	case *ast.ParenExpr:
 		return c.expr(x.X, want)
@@ -414,7 +495,7 @@ func (c *leafCtx) expr(e ast.Expr, want string) (string, string) {
 		return c.lit(v, want), want
 	case *ast.Ident:
 		if t, ok := c.vars[x.Name]; ok {
-			return x.Name, t
+			return c.lname(x.Name), t
 		}
 		switch x.Name {
 		case "nil":
@@ -437,7 +518,7 @@ func (c *leafCtx) expr(e ast.Expr, want string) (string, string) {
 			if strings.HasPrefix(t, "S_") {
 				for _, f := range c.structs[strings.TrimPrefix(t, "S_")] {
 					if f[0] == x.Sel.Name {
-						return recv + "." + f[0], f[1]
+						return recv + "." + lf(f[0]), f[1]
 					}
 				}
 			}
@@ -637,7 +718,11 @@ func (c *leafCtx) expr(e ast.Expr, want string) (string, string) {
 		switch x.Op {
 		case token.LAND, token.LOR:
 			a, _ := c.expr(x.X, "Bool")
+			nb := len(c.binds)
 			b, _ := c.expr(x.Y, "Bool")
+			if c.gen7 && len(c.binds) != nb { // hoisting it would evaluate it even when the left operand decides
+				c.fail("an operation that may fail under the right operand of && / ||")
+			}
 			op := "&&"
 			if x.Op == token.LOR {
 				op = "||"
@@ -750,6 +835,16 @@ func (c *leafCtx) expr(e ast.Expr, want string) (string, string) {
 // peek returns the type an expression would have without recording failures.
 func (c *leafCtx) peek(e ast.Expr) (string, string) {
 	saved := c.err
+	if c.gen7 { // the seventh generation numbers call sites and counts failing operations: a look-ahead leaves no trace
+		binds, nfresh, fc, sc, ext := append([]string{}, c.binds...), c.nfresh, c.failCount, c.stuckCount, append([]string{}, c.externs...)
+		sites, nsite := map[token.Pos]string{}, copyMap(c.nsite)
+		for k, v := range c.sites {
+			sites[k] = v
+		}
+		defer func() {
+			c.binds, c.nfresh, c.failCount, c.stuckCount, c.externs, c.sites, c.nsite = binds, nfresh, fc, sc, ext, sites, nsite
+		}()
+	}
 	s, t := c.expr(e, "")
 	c.err = saved
 	return s, t
@@ -1213,6 +1308,11 @@ func structFields(c0 *leafCtx, structs map[string][][2]string, name string, st *
 			continue // pointers (shared, possibly cyclic state) are outside the subset
 		}
 		lt := c0.leanType(fl.Type)
+		if at, ok := fl.Type.(*ast.ArrayType); ok && at.Len == nil && len(fl.Names) == 1 && capFields[c0.dir+":"+name+"."+fl.Names[0].Name] {
+			if et := c0.leanType(at.Elt); et != "" { // a slice modelled with its capacity (leaf7.go)
+				lt = "C_" + et
+			}
+		}
 		if inner, ok := fl.Type.(*ast.StructType); ok && len(fl.Names) == 1 {
 			sub := name + "_" + fl.Names[0].Name
 			if subfs := structFields(c0, structs, sub, inner); len(subfs) > 0 {
@@ -1311,60 +1411,8 @@ func emitLeaves(repo string, parsed map[string][]*ast.File, fset *token.FileSet,
 		byDir[l.dir] = append(byDir[l.dir], l)
 	}
 	for _, dir := range dirs {
-		files := parsed[dir]
-		if files == nil {
-			files = parseDir(fset, repo+"/"+dir)
-		}
-		ev := &evaluator{decls: map[string]ast.Expr{}, iotas: map[string]int{}, memo: map[string]constant.Value{}, busy: map[string]bool{}}
-		structs := map[string][][2]string{}
-		for _, f := range files {
-			for _, d := range f.Decls {
-				gd, ok := d.(*ast.GenDecl)
-				if !ok {
-					continue
-				}
-				for i, s := range gd.Specs {
-					switch sp := s.(type) {
-					case *ast.ValueSpec:
-						if gd.Tok == token.CONST {
-							for j, n := range sp.Names {
-								if j < len(sp.Values) {
-									ev.decls[n.Name] = sp.Values[j]
-									ev.iotas[n.Name] = i
-								}
-							}
-						}
-					case *ast.TypeSpec:
-						if st, ok := sp.Type.(*ast.StructType); ok {
-							structs[sp.Name.Name] = nil
-							_ = st
-						}
-					}
-				}
-			}
-		}
-		// struct field types (second pass so that nested structs resolve)
-		c0 := &leafCtx{structs: structs}
-		for _, f := range files {
-			for _, d := range f.Decls {
-				gd, ok := d.(*ast.GenDecl)
-				if !ok {
-					continue
-				}
-				for _, s := range gd.Specs {
-					if sp, ok := s.(*ast.TypeSpec); ok {
-						if st, ok := sp.Type.(*ast.StructType); ok {
-							fs := structFields(c0, structs, sp.Name.Name, st)
-							if len(fs) > 0 {
-								structs[sp.Name.Name] = fs
-							} else {
-								delete(structs, sp.Name.Name)
-							}
-						}
-					}
-				}
-			}
-		}
+		ds := prepareDir(repo, parsed, fset, dir)
+		files, ev, structs := ds.files, ds.ev, ds.structs
 		used := map[string]bool{}
 		leafOf, retOf := map[string]string{}, map[string]string{}
 		extOf, recvOf := map[string][]string{}, map[string]bool{}
@@ -1500,9 +1548,22 @@ func emitLeaves(repo string, parsed map[string][]*ast.File, fset *token.FileSet,
 			for _, e := range c.externs {
 				extOf[l.fn] = append(extOf[l.fn], strings.SplitN(e, " : ", 2)[0])
 			}
+			li := &leafInfo{lean: l.lean, ret: ret, externs: append([]string{}, c.externs...), nparams: -1, file: "Leaf"}
+			if c.panics {
+				li.mode = modeOpt
+			}
+			if c.recv != "" {
+				li.outs = []string{"recv"}
+			}
+			if !c.effects { // recorded clock actions are not handed on to seventh-generation callers
+				ds.infoOf[l.fn] = li
+			}
 			if fd.Recv == nil {
 				pkgName := dir[strings.LastIndex(dir, "/")+1:]
 				globalLeaf[pkgName+"."+l.fn] = [2]string{l.lean, ret}
+				if !c.effects {
+					globalInfo[pkgName+"."+l.fn] = li
+				}
 			}
 		}
 		var names []string
@@ -1540,9 +1601,11 @@ func emitLeaves(repo string, parsed map[string][]*ast.File, fset *token.FileSet,
 			return names[i] < names[j]
 		})
 		for _, n := range names {
+			ds.emitted[n] = true
+			ds.structFile[n] = "Leaf"
 			fmt.Fprintf(&sb, "structure S_%s where\n", n)
 			for _, f := range structs[n] {
-				fmt.Fprintf(&sb, "  %s : %s\n", f[0], leanTypeName(f[1]))
+				fmt.Fprintf(&sb, "  %s : %s\n", lf(f[0]), leanTypeName(f[1]))
 			}
 			sb.WriteString("\n")
 		}
@@ -1552,4 +1615,5 @@ func emitLeaves(repo string, parsed map[string][]*ast.File, fset *token.FileSet,
 	}
 	sb.WriteString("end ScionTime.Gen.Leaf\n")
 	writeIfChanged(outPath, sb.String())
+	emitLeaves7(repo, parsed, fset, outPath)
 }
